@@ -588,6 +588,74 @@ def r_rows_rewritten_per_equation(rule, root=None):
             rule.ok("Solver::%s rewrites the row of every parameter an equation uses" % name, file=SOL, line=ms[0]["ln"])
 
 
+
+def _float_lit(e):
+    v = A.lit_value(A.strip(e))
+    try:
+        return float(v) if v is not None else None
+    except (TypeError, ValueError):
+        return None
+
+
+def r6_damping_and_threshold(rule, root=None):
+    """the damping factor is *relative* (it multiplies diag(J^T J)), so its schedule is scale-free: a constant start
+    and constant grow / shrink factors - rescaling it by a property of the problem applies the problem's scale twice
+    (a system multiplied by 1e4 then barely moves).  The convergence test on the error is absolute: a threshold
+    scaled by run-time state (the starting error) stops early when the start is far away."""
+    fn = A.find_fn(SOL, "solve", root=root)
+    view = fn["body"]
+    lets = [l for l in A.find(view, "Let") if A.binding_name(l["pat"]) == "damping" and l.get("init") is not None]
+    if len(lets) != 1:
+        rule.lost("`let mut damping = ..` in solve()")
+        return
+    v0 = _float_lit(lets[0]["init"])
+    if v0 is not None and v0 > 0:
+        rule.ok("damping starts at the constant %s" % v0, file=SOL, line=lets[0]["ln"])
+    else:
+        rule.bad("damping|init", "the damping factor must start at a positive constant; found `%s`" % str(A.ftxt(lets[0]["init"]))[:60], A.where(SOL, lets[0]))
+    writes = []
+    for b in A.find(view, "Binary"):
+        if b["op"] in ("*=", "/=", "+=", "-=") and A.ident(A.strip(b["left"])) == "damping":
+            writes.append(b)
+    for a_ in A.find(view, "Assign"):
+        if A.ident(A.strip(a_["left"])) == "damping":
+            writes.append(a_)
+    nconst = 0
+    for w in writes:
+        rhs = _float_lit(w["right"])
+        if w.get("k") == "Binary" and w["op"] in ("*=", "/=") and rhs is not None and rhs > 0:
+            nconst += 1
+            continue
+        rule.bad("damping|write", "the damping factor is rewritten by `%s`: its schedule must consist of constant factors only (it multiplies diag(J^T J), which already carries the scale of the problem)" % str(A.ftxt(w))[:80], A.where(SOL, w))
+    if nconst >= 2:
+        rule.ok("damping changes only by constant factors (%d writes)" % nconst, file=SOL, line=fn["ln"])
+    elif not any(v_["key"].startswith("%s|damping|write" % rule.id) for v_ in rule.violations):
+        rule.lost("the grow / shrink updates of damping")
+    # thresholds on the error
+    n = 0
+    for b in A.find(view, "Binary"):
+        if b["op"] not in ("==", "<=", "<", ">=", ">"):
+            continue
+        l_, r_ = A.strip(b["left"]), A.strip(b["right"])
+        names = (A.ident(l_), A.ident(r_))
+        if "err" not in names:
+            continue
+        other = r_ if names[0] == "err" else l_
+        if A.ident(other) == "prev_err":
+            continue  # the accept / reject test of a trial step
+        val = _float_lit(other)
+        # does this comparison decide an exit?
+        conds_break = any(any(n_ is b for n_ in A.walk(i_["cond"])) and "break" in str(A.ftxt(i_["then"])) for i_ in A.find(view, "If"))
+        if not conds_break:
+            continue
+        n += 1
+        if val is not None and 0 <= val <= 1e-6:
+            rule.ok("the loop ends on the error only against the constant %s" % val, file=SOL, line=b["ln"])
+        else:
+            rule.bad("exit|threshold", "the loop ends when `%s`: a convergence threshold on the error must be an absolute constant (zero); one scaled by run-time state stops early for a distant start" % str(A.ftxt(b))[:70], A.where(SOL, b))
+    if n == 0:
+        rule.lost("the exit test on `err` in solve()")
+
 def run(ctx):
     r = ctx.rule("R1", "only free parameters get a gradient slot and a result; fixed ones are constants at their value", 7)
     ctx.guarded(r, r1_free_fixed)
@@ -600,5 +668,7 @@ def run(ctx):
     r = ctx.rule("R5", "every equation is evaluated in every iteration: the loops over the tapes have no early exit, and each equation rewrites the rows of all its parameters", 4)
     ctx.guarded(r, r5_every_equation)
     ctx.guarded(r, r_rows_rewritten_per_equation)
+    r = ctx.rule("R6", "the damping schedule is scale-free (constant start, constant factors) and the convergence threshold on the error is an absolute constant", 3)
+    ctx.guarded(r, r6_damping_and_threshold)
     # this property quantifies over every shape and both backends, so it needs the evaluators it consults to be right
     ctx.include('C05', "the Jacobian is the gradient evaluators' output", skip=())
